@@ -68,17 +68,23 @@ def restore (pb : Pb) : Pb := { pb with clauses := pb.clauses.take pb.nbClauses 
 
 /-- The inner `for _, lit := range clause` loop of `(*Problem).unsat`.
     `unb` is the counter `unbound` (0 or 1 while the loop runs), `ul` the variable `unit`.
-    * `binding == 0`: `unbound++`; first one is remembered, second one `break`s (`.many`);
+    * `binding == 0`:
+      `if unbound == 1 && lit == unit { continue }` — the first unbound literal again: skipped;
+      otherwise `unbound++`; first one is remembered, second one `break`s (`.many`);
     * `binding*lit == v`: `sat = true; break`;
     * end of clause: `unbound == 0` is a conflict, `unbound == 1` a unit.
-    Unlike `GS.scan`, a repetition of the same unbound literal counts twice. -/
+    Only a repetition of the *first* unbound literal is skipped (`1 2 1` with 1 and 2 unbound
+    breaks at `2`).  From the start state `unb = 0` this is `GS.scan` (`scanGo_eq_scan` in
+    `GS/Props/C08_Explain.lean`); the two differ only in states `unb ≥ 2`, which the loop never
+    reaches (it `break`s when `unbound` becomes 2). -/
 def scanGo (u : Array Int) : List Int → Nat → Int → Scan
   | [], 0, _ => .conflict
   | [], _+1, ul => .unit ul
   | l :: rest, unb, ul =>
     let b := bind u l.natAbs
     if b = 0 then
-      if unb = 0 then scanGo u rest 1 l else .many
+      if unb = 1 ∧ l = ul then scanGo u rest unb ul             -- `continue`
+      else if unb = 0 then scanGo u rest 1 l else .many         -- `unbound++`; remember / `break`
     else if b * l = (l.natAbs : Int) then .sat
     else scanGo u rest unb ul
 
